@@ -283,6 +283,10 @@ func (s *Live) runC14(env *core.Env, st *core.Stats) (vs []core.Violation) {
 	if base.panicked {
 		return []core.Violation{core.V("panic", panicKey(base.panicMsg), "decoder panicked with all options on: %s", base.panicMsg)}
 	}
+	if base.refused {
+		st.Probe("second-listener-refused")
+		return nil
+	}
 	if st != nil {
 		for _, d := range base.got {
 			switch {
@@ -304,6 +308,9 @@ func (s *Live) runC14(env *core.Env, st *core.Stats) (vs []core.Violation) {
 		name := fmt.Sprintf("active_sense=%v timing_clock=%v sysex=%v", o.ActiveSense, o.TimeCode, o.SysEx)
 		if obs.panicked {
 			return []core.Violation{core.V("panic", panicKey(obs.panicMsg), "decoder panicked with %s: %s", name, obs.panicMsg)}
+		}
+		if obs.refused {
+			return nil
 		}
 		var want []delivered
 		for _, d := range base.got {
